@@ -282,7 +282,7 @@ def known_lines(pid):
                 continue
             key = [t[4:] for t in toks if t.startswith("key=")]
             if key:
-                out[key[0]] = l.strip()[len("finding:"):].strip()
+                out[key[0]] = " ".join(t for t in toks[1:] if not t.startswith("property=") and not t.startswith("key="))
     except FileNotFoundError:
         pass
     return out
@@ -424,16 +424,33 @@ def run_check(pid, tier, seed):
         if timed_out:
             inconclusive = True
             log("[warn] %s: wall-clock guard fired; run is inconclusive, not a violation" % pid)
-        for s in shards:
-            if s.rc in (0, None):
-                continue
+        failed = [s for s in shards if s.rc not in (0, None)]
+        # crash / hang in-process (no shrunk case): re-run up to three such shards isolated (each case in a
+        # forked child) so that the crash becomes an ordinary failure that can be shrunk; in parallel, bounded
+        crashed = [s for s in failed if not os.path.exists(os.path.join(s.outdir, "found.case"))
+                   and os.path.exists(os.path.join(s.outdir, "current.case")) and s.idx < 100][:3]
+
+        def iso(s):
+            shr = os.path.join(s.outdir, "iso")
+            try:
+                subprocess.run(s.cmd[:1] + ["--out", shr, "--known", KNOWN, "--isolate"] + extra_args, env=s.env,
+                               stdout=subprocess.DEVNULL, stderr=subprocess.DEVNULL, cwd=s.outdir,
+                               timeout=cfg.get("shrink_timeout", 180))
+            except subprocess.TimeoutExpired:
+                pass
+        if crashed:
+            with ThreadPoolExecutor(max_workers=len(crashed)) as ex:
+                list(ex.map(iso, crashed))
+        seen_crash_sig = set()
+        for s in failed:
             found = os.path.join(s.outdir, "found.case")
             cur = os.path.join(s.outdir, "current.case")
+            isof = os.path.join(s.outdir, "iso", "found.case")
             case = None
-            if s.rc == 10 and os.path.exists(found):
+            if os.path.exists(found):
                 case = found
-            elif os.path.exists(found):
-                case = found
+            elif os.path.exists(isof):
+                case = isof
             elif os.path.exists(cur):
                 case = cur
             if case is None:
@@ -444,17 +461,13 @@ def run_check(pid, tier, seed):
                     f.write(" ".join(s.cmd) + "\n" + s.log_tail(200))
                 violations.append((dst, s.log_tail(40)))
                 continue
-            if s.rc != 10 and case == cur:
-                # crash / hang in-process: try to get a shrunk case by re-running the shard isolated
-                shr = os.path.join(s.outdir, "iso")
-                try:
-                    subprocess.run(s.cmd[:1] + ["--out", shr, "--known", KNOWN, "--isolate"] + extra_args, env=s.env,
-                                   stdout=subprocess.DEVNULL, stderr=subprocess.DEVNULL, cwd=s.outdir,
-                                   timeout=cfg.get("shrink_timeout", 600))
-                except subprocess.TimeoutExpired:
-                    pass
-                if os.path.exists(os.path.join(shr, "found.case")):
-                    case = os.path.join(shr, "found.case")
+            if case == cur:
+                # unshrunk crash: report one per sanitizer summary line
+                sig = [l for l in s.log_tail(400).splitlines() if l.startswith("SUMMARY:")]
+                sig = sig[-1] if sig else "crash"
+                if sig in seen_crash_sig:
+                    continue
+                seen_crash_sig.add(sig)
             dst = save_found(pid, case)
             if any(v[0] == dst for v in violations):
                 continue  # several shards shrank to the same case
